@@ -229,10 +229,11 @@ func main() {
 		mx, _ := ctx.MaxVersionKey(storage.TKey(tk))
 		ucls, upd := update(key, i, v, c)
 		p := parseKey(exact(upd), false)
+		p0 := parseKey(exact(key), false)
 		m1, m2 := storage.Key(key).IsTombstone(), storage.Key(tomb).IsTombstone()
 		bd := lib.NewBinder()
-		term := bd.Wrap(fmt.Sprintf("CKey %d %d %d %s %s %s %s %s %s %s %s %s (%s, %s)", i, v, c, bd.Bytes(tk), bd.Bytes(key),
-			lib.CoqRes(ucls, bd.Bytes(upd)), lib.CoqRes(p.tkCls, bd.Bytes(p.tk)), coqIDs(p.idsCls, p.ids), lib.CoqRes(p.verCls, lib.CoqN(uint64(p.ver))),
+		term := bd.Wrap(fmt.Sprintf("CKey %d %d %d %s %s %s %s %s %s %s %s %s %s (%s, %s)", i, v, c, bd.Bytes(tk), bd.Bytes(key),
+			coqIDs(p0.idsCls, p0.ids), lib.CoqRes(ucls, bd.Bytes(upd)), lib.CoqRes(p.tkCls, bd.Bytes(p.tk)), coqIDs(p.idsCls, p.ids), lib.CoqRes(p.verCls, lib.CoqN(uint64(p.ver))),
 			bd.Bytes(tomb), bd.Bytes(mn), bd.Bytes(mx), lib.CoqBool(m1), lib.CoqBool(m2)))
 		run.Count("tkey-len:" + lenClass(len(tk)))
 		run.Add(kind, term, jcase{Kind: "key", I: i, V: v, C: c, TK: tk}, fmt.Sprintf("key/%d/%d/%d/%x", i, v, c, tk))
